@@ -28,6 +28,8 @@ SUBR_AS_LVL = "TYPE\n  LVL : INT (1..10);\nEND_TYPE\n"
 LATEC = "TYPE\n  LVL4 : lvl3;\nEND_TYPE\n"          # an alias of an alias, referring to it in another letter case
 STRUCT_AS_TON = "TYPE\n  TON : STRUCT\n    q : INT;\n  END_STRUCT;\nEND_TYPE\n"
 XTIMER = "FUNCTION_BLOCK XTIMER\n  VAR\n    a : INT;\n  END_VAR\n  a := a + 3;\nEND_FUNCTION_BLOCK\n"
+FUNC_INST = ("FUNCTION FIL : INT\n  VAR_INPUT\n    fa : INT;\n  END_VAR\n  VAR\n    c : CALLEE;\n  END_VAR\n  c(in1 := fa);\n  FIL := fa;\nEND_FUNCTION\n")
+VICT2 = ("FUNCTION_BLOCK VICT2\n  VAR\n    c : INT;\n    a : INT;\n    d : CALLEE;\n  END_VAR\n  d(in1 := a);\n  a := a + 4;\nEND_FUNCTION_BLOCK\n")
 STRUCT_AS_FN = "TYPE\n  FN : STRUCT\n    q : INT;\n  END_STRUCT;\nEND_TYPE\n"
 ENUM_AS_MAIN = "TYPE\n  MAIN : (M_A, M_B) := M_A;\nEND_TYPE\n"
 STR_AS_ARR = "TYPE\n  ARR : STRING[10];\nEND_TYPE\n"
@@ -51,6 +53,8 @@ KINDS = {
     "LC": ("LVL4", ["LVL3"], LATEC),
     "TTON": ("TON", [], STRUCT_AS_TON),
     "XT": ("XTIMER", [], XTIMER),
+    "FI": ("FIL", ["CALLEE"], FUNC_INST),
+    "VI": ("VICT2", ["CALLEE"], VICT2),
     "TFN": ("FN", [], STRUCT_AS_FN),
     "TMAIN": ("MAIN", [], ENUM_AS_MAIN),
     "E": ("LVL", [], ENUM),
@@ -66,6 +70,7 @@ KINDS = {
 
 # context-free rule violations (the documented 'Fails' shapes), per declaration kind: (text, code, lexeme the label must name)
 RULE_FAULT = {
+    "VI": (VICT2.replace("  a := a + 4;\n", "  a := a + 4;\n  c(in1 := a);\n"), "P0021", "c(in1 := a)"),      # c is an INT here, an instance in FIL
     "XT": (XTIMER.replace("    a : INT;\n", "    a : INT;\n    t : TON;\n"), "P0029", "TON"),        # a standard function block that is not implemented
     "V": (VICTIM.replace("a := a + 1;", "c(in1 := a, out1 => a);"), "P0021", "c(in1 := a, out1 => a)"),      # the label covers the invocation; c is an instance of USER, not of VICTIM
     "W": (WANDER.replace("a := a + 2;", "a := n + 2;"), "P0015", "n"),                   # n is a variable of MAIN, not of WANDER
@@ -102,7 +107,7 @@ DUP_BODY = {
 # the specification's name of a declaration where it differs from the spelled name: a data type that is spelled like a
 # function / program lives in another name space
 SPEC_NAME = {}
-SPACE = {"C": "fb", "U": "fb", "V": "fb", "W": "fb", "CX": "fb", "XT": "fb", "F": "pou", "M": "pou", "MF": "pou", "G": "pou"}     # everything else: "data"
+SPACE = {"VI": "fb", "FI": "pou", "C": "fb", "U": "fb", "V": "fb", "W": "fb", "CX": "fb", "XT": "fb", "F": "pou", "M": "pou", "MF": "pou", "G": "pou"}     # everything else: "data"
 
 
 def lex_fault(text):
@@ -129,6 +134,16 @@ def decl_text(kind, fault):
     raise ValueError(fault)
 
 
+def big_library(n):
+    """n groups of (enumeration, alias of it, function block with a variable of the alias): 3n declarations"""
+    for i in range(1, n + 1):
+        KINDS["BE%d" % i] = ("BEN%d" % i, [], "TYPE\n  BEN%d : (BA%d, BB%d) := BA%d;\nEND_TYPE\n" % (i, i, i, i))
+        KINDS["BA%d" % i] = ("BAL%d" % i, ["BEN%d" % i], "TYPE\n  BAL%d : BEN%d;\nEND_TYPE\n" % (i, i))
+        KINDS["BF%d" % i] = ("BFB%d" % i, ["BAL%d" % i], "FUNCTION_BLOCK BFB%d\n  VAR\n    v : BAL%d;\n    n : INT;\n  END_VAR\n  n := n + %d;\nEND_FUNCTION_BLOCK\n" % (i, i, i))
+        SPACE["BF%d" % i] = "fb"
+    return [(k % i, "none") for i in range(1, n + 1) for k in ("BF%d", "BA%d", "BE%d")]
+
+
 def scenarios():
     """name -> list of (kind, fault)  (fault 'dup:K' = a second declaration named like kind K)"""
     sc = {}
@@ -150,6 +165,7 @@ def scenarios():
     sc["cross_tAS"] = [("E", "none"), ("AR", "none"), ("ASX", "none")]
     # valid sets made of every kind of data type declaration (aliases, structure initialisations ... before / after what they need)
     sc["validLB"] = [("E", "none"), ("LB", "none"), ("C", "none")]
+    sc["valid24"] = big_library(8)                 # more than 20 declarations: sorting shortcuts for small inputs do not apply
     sc["validLC"] = [("E", "none"), ("LB", "none"), ("LC", "none"), ("C", "none")]
     sc["validT5"] = [("E", "none"), ("LB", "none"), ("S", "none"), ("SI", "none"), ("C", "none")]
     sc["validT8"] = [("E", "none"), ("E2", "none"), ("LB", "none"), ("S", "none"), ("SI", "none"), ("R", "none"), ("AR", "none"), ("ST", "none")]
@@ -157,6 +173,8 @@ def scenarios():
     # (functions and programs are not types: the coincidence of the names is legal and is not a duplicate)
     # a data type named like the standard function block a faulty declaration refers to
     sc["rule_XT"] = [("E", "none"), ("C", "none"), ("TTON", "none"), ("XT", "rule")]
+    # an instance name of a FUNCTION must not make the invocation of a same-named INT variable elsewhere look right
+    sc["rule_VI"] = [("C", "none"), ("FI", "none"), ("VI", "rule")]
     sc["rule_TF"] = [("E", "none"), ("C", "none"), ("TFN", "none"), ("F", "rule")]
     sc["rule_TM"] = [("E", "none"), ("E2", "none"), ("C", "none"), ("U", "none"), ("TMAIN", "none"), ("M", "rule")]
     sc["cross_RX"] = [(x, "none") for x in ["E", "C", "RX"]]
@@ -194,7 +212,7 @@ def write_specs():
                  "ScName == " + "<<" + ", ".join('"%s"' % SPEC_NAME.get(k, KINDS[k][0]) for k, f in decls) + ">>",
                  "ScDeps == " + "<<" + ", ".join("{" + ", ".join('"%s"' % d for d in KINDS[k][1]) + "}" for k, f in decls) + ">>",
                  "ScFault == " + "<<" + ", ".join('"%s"' % tla_fault(f) for k, f in decls) + ">>",
-                 "ScSortDeps == " + "<<" + ", ".join("{" + ", ".join('"%s"' % d for d in (KINDS[k][1] if k in ("E2", "LB", "LC") else [])) + "}" for k, f in decls) + ">>",
+                 "ScSortDeps == " + "<<" + ", ".join("{" + ", ".join('"%s"' % d for d in (KINDS[k][1] if k in ("E2", "LB", "LC") or k.startswith("BA") else [])) + "}" for k, f in decls) + ">>",
                  "ScSpace == " + "<<" + ", ".join('"%s"' % SPACE.get(k, "data") for k, f in decls) + ">>",
                  "===="]
         with open(os.path.join(SPEC, mod + ".tla"), "w") as fh:
